@@ -464,6 +464,7 @@ pub fn run(tier: Tier) -> i32 {
         Tier::Quick => Duration::from_secs(120),
         Tier::Thorough => Duration::from_secs(1500),
     };
+    let (short_runs, long_runs) = (crate::gen::scaled(short_runs), crate::gen::scaled(long_runs));
     let seeded = run_stage("seeded", short_runs, wall_cap, &mut total, &|i| generate(&mut Rng::new(run_seed(c.seed, PROP, "seeded", i)), tier, false), &exec_guarded, &[0, 1], 24);
     let long = if seeded.found.is_none() {
         Some(run_stage("long-uptime", long_runs, wall_cap, &mut total, &|i| generate(&mut Rng::new(run_seed(c.seed, PROP, "long-uptime", i)), tier, true), &exec_guarded, &[0], 24))
